@@ -255,6 +255,21 @@ func diagnose(dones []<-chan struct{}, gap time.Duration) *StuckReport {
 	return &StuckReport{Reason: "unconfirmed after 3 dump pairs: " + reason, Dump: d1, Relevant: relevant}
 }
 
+// StuckSendRoots: goroutines of the code under test whose stack contains one of these functions are judged
+// when they are parked in a channel send.
+var StuckSendRoots = []string{"server.(*FSM).run"}
+
+func (g *Goroutine) hasFunc(subs []string) bool {
+	for _, fn := range g.Funcs {
+		for _, s := range subs {
+			if strings.Contains(fn, s) {
+				return true
+			}
+		}
+	}
+	return false
+}
+
 // CompareDumps applies the deadlock rule to two dumps of the same process.
 func CompareDumps(d1, d2 string) *StuckReport {
 	g1 := map[int]*Goroutine{}
@@ -288,6 +303,14 @@ func CompareDumps(d1, d2 string) *StuckReport {
 			// a goroutine of the code under test (not started by the harness) parked in a mutex in both
 			// dumps is part of the picture; idle channel waits are not
 			if p := g1[g.ID]; p != nil && mutexState(g.State) && p.key() == g.key() {
+				if f, bio := g.parkedIn(); bio {
+					frames[f] = struct{}{}
+				}
+			}
+			// ... and so is a session's own goroutine (FSM.run) that sits in an unbuffered channel send in both
+			// dumps: its state loops wait in select, a bare send is a hand-over to a goroutine that has to be there
+			// (e.g. UpdateSender.Destroy -> the sender goroutine, which polls every few milliseconds)
+			if p := g1[g.ID]; p != nil && strings.HasPrefix(g.State, "chan send") && p.key() == g.key() && g.hasFunc(StuckSendRoots) {
 				if f, bio := g.parkedIn(); bio {
 					frames[f] = struct{}{}
 				}
